@@ -58,12 +58,12 @@ class pyBQM:
         return new
 
     def add_linear(self, v: Variable, bias: Any):
-        self._adj.setdefault(v, dict())
         try:
             zero = type(bias)()  # try to preserve the type
         except TypeError:
             zero = 0  # sometimes it cannot be constructed with no arguments
-        self._adj[v][v] = self._adj[v].get(v, zero) + bias
+        new = self._adj[v].get(v, zero) + bias if v in self._adj else zero + bias  # may raise: nothing added yet
+        self._adj.setdefault(v, dict())[v] = new
 
     def add_linear_equality_constraint(self, *args, **kwargs):
         raise NotImplementedError  # defer to caller
@@ -82,6 +82,7 @@ class pyBQM:
             zero = 0  # sometimes it cannot be constructed with no arguments
 
         hash(v)  # an unhashable second label must raise before the first one is added
+        new = self._adj.get(v, {}).get(u, zero) + bias  # may raise: nothing added yet
 
         # derive the linear types to match quadratic. This might not always
         # be what we want but it's as good a guess as any
@@ -90,7 +91,7 @@ class pyBQM:
         if v not in self.variables:
             self.set_linear(v, zero)
 
-        self._adj[u][v] = self._adj[v][u] = self._adj[v].get(u, zero) + bias
+        self._adj[u][v] = self._adj[v][u] = new
 
     def add_quadratic_from_dense(self, quadratic: ArrayLike):
         quadratic = np.asarray(quadratic)
